@@ -398,7 +398,7 @@ func init() {
 	}
 	register(&Prop{
 		ID:   "C15",
-		Rule: "every operation type reachable from OpSpec by reflection + ActionSpec, OpSpec, ChildActions; for each type: every exported field populated alone and all fields together, with template-free values by kind (strings, string-kinded enums, pointers, slices, maps, nested ActionSpec to depth 2 with children, ValOrRef, ValOrRefSlice, AnyVal decoded from YAML, regexp) and with the template '{{ .x }}' in every string; the configured action and its CloneWith(ctx) are converted to value models by reflection (nil and empty identified) and compared with clone_v over the table the translator regenerated from source; Go side: template-free clone structurally equal, original untouched; exec-equivalence: set / template(parseAs) / log / forEach / nested forEach executed from the original and from the clone on equal data give equal data and logs. Non-trivial: value has a pointer, slice of records or nested action spec. Distinct by (type, field, value).",
+		Rule: "every operation type reachable from OpSpec by reflection + ActionSpec, OpSpec, ChildActions; for each type: every exported field populated alone and all fields together, with template-free values by kind (strings, string-kinded enums, pointers, slices, maps, nested ActionSpec to depth 2 with children, ValOrRef, ValOrRefSlice, AnyVal decoded from YAML, regexp) and with the template '{{ .x }}' in every string; the configured action and its CloneWith(ctx) are converted to value models by reflection (nil and empty identified) and compared with clone_v over the table the translator regenerated from source; Go side: template-free clone structurally equal, original untouched; exec-equivalence: set / template(parseAs) / log / forEach / nested forEach executed from the original and from the clone on equal data give equal data and logs. Non-trivial: value has a pointer, slice of records or nested action spec. Distinct by (type, field, value). Nested action specs carry guards that are true, false, false against the clone-time data, or not evaluable; templated strings may have '}}' in their plain part.",
 		Gen: func(r *rand.Rand, tier string, idx int) Case {
 			if idx < len(jobs) {
 				j := jobs[idx]
